@@ -339,6 +339,7 @@ func exploreSeq(key string, newProp func() interface{}, depth int, mixed bool) *
 	if len(vals) == 0 {
 		return out
 	}
+	limit := depth
 	var rec func(prefix []seqOp, ref []int)
 	rec = func(prefix []seqOp, ref []int) {
 		// rebuild the container by replaying the prefix (live objects do not copy)
@@ -369,7 +370,7 @@ func exploreSeq(key string, newProp func() interface{}, depth int, mixed bool) *
 				Replay: M{"check": "C18", "property": key, "ops": names, "mixed": mixed}})
 			return // the subtree below a broken state adds nothing
 		}
-		if len(prefix) == depth {
+		if len(prefix) == limit {
 			if out.sample == nil && len(prefix) >= 3 {
 				names := make([]string, len(prefix))
 				for i, op := range prefix {
@@ -385,8 +386,30 @@ func exploreSeq(key string, newProp func() interface{}, depth int, mixed bool) *
 		}
 	}
 	rec(nil, nil)
+	if !mixed {
+		// longer containers: from a list of n appended values (n around the powers of two where a backing
+		// array is exactly full, and beyond) every single operation at every index (thorough: every pair of
+		// operations for n <= 9)
+		for _, n := range []int{5, 6, 7, 8, 9, 16, 17, 33} {
+			var prefix []seqOp
+			var ref []int
+			for i := 0; i < n; i++ {
+				prefix = append(prefix, seqOp{name: "Append", v: i % len(vals)})
+				ref = append(ref, i%len(vals))
+			}
+			limit = n + 1
+			if longPairs && n <= 9 {
+				limit = n + 2
+			}
+			rec(prefix, ref)
+		}
+		limit = depth
+	}
 	return out
 }
+
+// longPairs: thorough tier of the long-container family.
+var longPairs bool
 
 // ---- functional properties ----
 
@@ -782,6 +805,7 @@ func C18(tier string) int {
 	stride := 3
 	if res.Thorough() {
 		stride = 1
+		longPairs = true
 	}
 	var jobs []job
 	for _, pk := range o.PropKeys() {
@@ -869,7 +893,7 @@ func C18(tier string) int {
 	res.Extra["non_functional_properties"] = nseq
 	res.Extra["functional_properties"] = nfunc
 	res.Extra["depth_completed"] = M{"iri_alphabet": depthIRI, "mixed_alphabet": depthMixed, "functional": depthFunc}
-	res.Rule = fmt.Sprintf("every non-functional property (%d): ALL operation sequences from the empty container up to depth %d over {Append,Prepend,Insert(i),Set(i),Remove(i),Swap(i,j)} with every valid index and 2 IRI values, and to depth %d with a mixed alphabet {IRI, first literal kind, first type kind}; after every step Len/Empty/At(i) kind+value/forward walk/backward walk/Serialize are compared with a plain Go slice driven by the same operations; every functional property (%d): all Set*/SetIRI/Clear sequences up to length %d over IRI + up to 3 kinds; additionally EVERY kind of every property in short sequences (non-functional: a one-element container of kind k1 followed by Append/Prepend/Insert(0|1)/Set(0) of kind k2, Remove after Prepend; functional: Set k1 then Set k2 / Clear), each also through the generic AppendType/PrependType/InsertType/SetType entry points, for all pairs (k1,k2) (quick: a third of the pairs, always including k1=k2 and the first and last kind); further, the setters not named after a kind and start states other than a fresh container: every functional property from {fresh, decoded from the serialised form of each kind, decoded from each of 6 junk values the slot keeps as an opaque unknown} through every sequence of length 1..2 over {every Set<Kind>, SetIRI, SetLanguage, Clear}; every non-functional property as a list of 2-3 elements (built by Append, or decoded from a JSON array, also with a junk element kept as unknown in each position) with every in-place setter of every element reached through At(i) (Set<Kind> of every kind, SetIRI, SetType, SetLanguage), alone or followed by Remove / Swap / a second in-place set; states = distinct (property, reference state) pairs, transitions = operations applied; every state is rebuilt by replaying its operation list on a fresh real object", nseq, depthIRI, depthMixed, nfunc, depthFunc)
+	res.Rule = fmt.Sprintf("every non-functional property (%d): ALL operation sequences from the empty container up to depth %d over {Append,Prepend,Insert(i),Set(i),Remove(i),Swap(i,j)} with every valid index and 2 IRI values, and to depth %d with a mixed alphabet {IRI, first literal kind, first type kind}; after every step Len/Empty/At(i) kind+value/forward walk/backward walk/Serialize are compared with a plain Go slice driven by the same operations; from lists of 5, 6, 7, 8, 9, 16, 17 and 33 appended values every single operation at every index (thorough: every pair for lists up to 9); every functional property (%d): all Set*/SetIRI/Clear sequences up to length %d over IRI + up to 3 kinds; additionally EVERY kind of every property in short sequences (non-functional: a one-element container of kind k1 followed by Append/Prepend/Insert(0|1)/Set(0) of kind k2, Remove after Prepend; functional: Set k1 then Set k2 / Clear), each also through the generic AppendType/PrependType/InsertType/SetType entry points, for all pairs (k1,k2) (quick: a third of the pairs, always including k1=k2 and the first and last kind); further, the setters not named after a kind and start states other than a fresh container: every functional property from {fresh, decoded from the serialised form of each kind, decoded from each of 6 junk values the slot keeps as an opaque unknown} through every sequence of length 1..2 over {every Set<Kind>, SetIRI, SetLanguage, Clear}; every non-functional property as a list of 2-3 elements (built by Append, or decoded from a JSON array, also with a junk element kept as unknown in each position) with every in-place setter of every element reached through At(i) (Set<Kind> of every kind, SetIRI, SetType, SetLanguage), alone or followed by Remove / Swap / a second in-place set; states = distinct (property, reference state) pairs, transitions = operations applied; every state is rebuilt by replaying its operation list on a fresh real object", nseq, depthIRI, depthMixed, nfunc, depthFunc)
 	res.Assumptions = []string{"an element's expected observation is the one a fresh single-element container shows for the same (kind, value): the check judges the container logic, not per-kind serialisation (C01/C12)"}
 	return res.Finish()
 }
